@@ -205,8 +205,8 @@ def run(ctx: common.Ctx) -> None:
     quick = ctx.tier == "quick"
     scale = float(os.environ.get("VERIF_SCALE", "1"))
     n_std: int | None
-    n_std, n_corpus, n_gen, flips = (90, 450, 4, 2) if quick else (None, 100000, 16, 4)
-    n_hist = 40 if quick else 600
+    n_std, n_corpus, n_gen, flips = (90, 450, 4, 2) if quick else (None, 3000, 16, 4)
+    n_hist = 40 if quick else 200
     if scale != 1:
         n_hist = max(2, int(n_hist * scale))
         n_std = max(3, int((n_std if n_std is not None else 800) * scale))
@@ -336,8 +336,8 @@ def run(ctx: common.Ctx) -> None:
         ctx.floor_nontrivial = int(500 * min(1.0, scale))
         ctx.floor_evaluations = int(50000 * min(1.0, scale))
     else:
-        ctx.floor_nontrivial = int(3000 * min(1.0, scale))
-        ctx.floor_evaluations = int(400000 * min(1.0, scale))
+        ctx.floor_nontrivial = int(2000 * min(1.0, scale))
+        ctx.floor_evaluations = int(250000 * min(1.0, scale))
 
 
 def build_repo_librt(wd: str) -> str | None:
